@@ -1,4 +1,5 @@
 import RV.C08.Tables
+import RV.C08.Float
 /-
   C08 — executable model of rdflib's solution modifiers and aggregates
   (after the `fix:` commits of branch fix-C08).
@@ -249,12 +250,13 @@ def pow10 : Nat → Nat
   | 0 => 1
   | n + 1 => 10 * pow10 n
 
-/-- least `s ≥ 1` (up to fuel) such that `v · 10^s` is an integer: the fraction digits of `repr(float)` -/
-def dblScaleAux (v : Rat) : Nat → Nat → Nat
-  | 0, s => s
-  | f + 1, s => if (v * ((pow10 s : Nat) : Rat)).den == 1 then s else dblScaleAux v f (s + 1)
+/-- the fraction digits of `repr(float)` (Float.lean): the scale tag of an xsd:double / xsd:float term -/
+def dblScale (v : Rat) : Nat := F.fracDigits v
 
-def dblScale (v : Rat) : Nat := dblScaleAux v 30 1
+/-- Python `a + b` on two numbers one of which is a `float` (`fl`): both are converted to binary64 (`float(Decimal)`,
+    int → float: correctly rounded), the exact sum is rounded to binary64; otherwise int / Decimal arithmetic, exact.
+    (`type_safe_numbers` + `sum` in aggregates.py, `res += n` in operators.AdditiveExpression) -/
+def addNum (fl : Bool) (v x : Rat) : Rat := if fl then F.roundF (F.roundF v + F.roundF x) else v + x
 
 /-- least `s` below the fuel with `v · 10^s` an integer, searching upwards from `s`: the fraction digits a
     terminating decimal needs -/
@@ -286,7 +288,7 @@ def arith (plus : Bool) : Val → Val → Val
     match numericOf a, numericOf b with
     | some (d1, v1, s1), some (d2, v2, s2) =>
       match typePromotion d1 d2 with
-      | some dt => some (mkNum dt (if plus then v1 + v2 else v1 - v2) (max s1 s2))
+      | some dt => some (mkNum dt (addNum dt.isFloating v1 (if plus then v2 else -v2)) (max s1 s2))
       | none => none
     | _, _ => none
   | _, _ => none
@@ -362,7 +364,7 @@ def DTF.lex (f : DTF) : Str :=
 def lexOf : Term → Str
   | .bnode l => l
   | .iri s => s
-  | .num _ v sc => decLex (v * ((pow10 sc : Nat) : Rat)).num sc
+  | .num d v sc => if d.isFloating then F.floatLex v else decLex (v * ((pow10 sc : Nat) : Rat)).num sc
   | .bool b => if b then [116, 114, 117, 101] else [102, 97, 108, 115, 101]
   | .str l _ => l
   | .dateTime f => f.lex
@@ -431,7 +433,7 @@ def AccSt.update (a : AggSpec) (st : AccSt) (r : Row) : AccSt :=
         | some (d, x, s) =>
           match typePromotion (dt.getD .integer) d with
           | none => st
-          | some dt' => .sum (v + x) (max sc s) (some dt') (addSeen a.dist t seen)
+          | some dt' => .sum (addNum dt'.isFloating v x) (max sc s) (some dt') (addSeen a.dist t seen)
   | .avg s sc cnt dt seen =>
     match evalE a.arg r with
     | none => st
@@ -442,7 +444,7 @@ def AccSt.update (a : AggSpec) (st : AccSt) (r : Row) : AccSt :=
         | some (d, x, sx) =>
           match avgNextDT dt d with
           | none => st
-          | some dt' => .avg (s + x) (max sc sx) (cnt + 1) (some dt') (addSeen a.dist t seen)
+          | some dt' => .avg (addNum dt'.isFloating s x) (max sc sx) (cnt + 1) (some dt') (addSeen a.dist t seen)
   | .ext cur =>
     match evalE a.arg r with
     | none => st
@@ -467,7 +469,7 @@ def AccSt.value (a : AggSpec) : AccSt → Val
   | .sum v sc dt _ => some (mkNum (dt.getD .integer) v sc)
   | .avg s sc cnt dt _ =>
     if cnt = 0 then some (.num .integer 0 0)
-    else if (dt.getD .integer).isFloating then some (mkNum (dt.getD .integer) (s / (cnt : Rat)) 0)
+    else if (dt.getD .integer).isFloating then some (mkNum (dt.getD .integer) (F.roundF (s / (cnt : Rat))) 0)
     else some (.num .decimal (s / (cnt : Rat)) (avgScale (s / (cnt : Rat)) sc))
   | .ext v => v
   | .sample v => v
